@@ -96,7 +96,7 @@
 (define (ces-convert bv . o)
   (let ((enc (if (pair? o) (car o) "utf8")))
     ;; TODO: add conversion routines for non-utf8 encodings
-    (utf8->string bv)))
+    (if (string? bv) bv (utf8->string bv))))
 
 ;;;;;;;;;;;;;;;;;;;;;;;;;;;;;;;;;;;;;;;;;;;;;;;;;;;;;;;;;;;;;;;;;;;;;;;;
 ;;> \section{RFC2822 Headers}
@@ -217,7 +217,7 @@
 (define (mime-decode-header str)
   (let* ((end (string-cursor-end str))
          ;; need at least 8 chars: "=?Q?X??="
-         (limit (string-cursor-back end 8))
+         (limit (string-cursor-back str end 8))
          (start (string-cursor-start str)))
     (let lp ((i start) (from start) (res '()))
       (cond
@@ -245,7 +245,7 @@
                      (substring-cursor str (string-cursor-forward str i 2) j))
                     (content
                      (substring-cursor str (string-cursor-forward str j 3) k))
-                    (k2 (string-cursor-forward k 2)))
+                    (k2 (string-cursor-forward str k 2)))
                 (lp k2 k2 (cons (ces-convert (decode content) cset)
                                 (cons (substring-cursor str from i) res))))
               (lp (string-cursor-forward str i 2) from res))))
